@@ -25,6 +25,7 @@ type FuncInfo struct {
 	Key  string
 	Decl *ast.FuncDecl
 	Lit  *ast.FuncLit
+	Body *ast.BlockStmt
 	Obj  *types.Func
 	Sig  *types.Signature
 	Pkg  *packages.Package
@@ -101,9 +102,68 @@ func LoadProgram(repo string, patterns ...string) (*Program, error) {
 				if obj == nil {
 					continue
 				}
-				fi := &FuncInfo{Key: funcKey(obj), Decl: fd, Obj: obj, Sig: obj.Type().(*types.Signature), Pkg: pkg}
+				fi := &FuncInfo{Key: funcKey(obj), Decl: fd, Body: fd.Body, Obj: obj, Sig: obj.Type().(*types.Signature), Pkg: pkg}
 				fi.Recv = fi.Sig.Recv()
 				p.Funcs[fi.Key] = fi
+			}
+			// command closures: cli.Command{Name: "x", Action: func(...) error {...}} become functions "<pkg>.cmd:x";
+			// other function literals assigned to a named local variable v inside function F become "<pkg>.F.lit:v"
+			ast.Inspect(f, func(n ast.Node) bool {
+				cl, ok := n.(*ast.CompositeLit)
+				if !ok {
+					return true
+				}
+				name := ""
+				var act *ast.FuncLit
+				for _, el := range cl.Elts {
+					kv, ok := el.(*ast.KeyValueExpr)
+					if !ok {
+						continue
+					}
+					k, _ := kv.Key.(*ast.Ident)
+					if k == nil {
+						continue
+					}
+					if k.Name == "Name" {
+						if bl, ok := kv.Value.(*ast.BasicLit); ok {
+							name = strings.Trim(bl.Value, "\"")
+						}
+					}
+					if k.Name == "Action" {
+						act, _ = kv.Value.(*ast.FuncLit)
+					}
+				}
+				if name != "" && act != nil {
+					sig, _ := pkg.TypesInfo.TypeOf(act).(*types.Signature)
+					if sig != nil {
+						key := pkg.PkgPath + ".cmd:" + name
+						p.Funcs[key] = &FuncInfo{Key: key, Lit: act, Body: act.Body, Sig: sig, Pkg: pkg}
+					}
+				}
+				return true
+			})
+			for _, d := range f.Decls {
+				fd, ok := d.(*ast.FuncDecl)
+				if !ok || fd.Body == nil {
+					continue
+				}
+				ast.Inspect(fd.Body, func(n ast.Node) bool {
+					as, ok := n.(*ast.AssignStmt)
+					if !ok || len(as.Lhs) != 1 || len(as.Rhs) != 1 {
+						return true
+					}
+					id, _ := as.Lhs[0].(*ast.Ident)
+					lit, _ := as.Rhs[0].(*ast.FuncLit)
+					if id == nil || lit == nil {
+						return true
+					}
+					sig, _ := pkg.TypesInfo.TypeOf(lit).(*types.Signature)
+					if sig != nil {
+						key := pkg.PkgPath + "." + fd.Name.Name + ".lit:" + id.Name
+						p.Funcs[key] = &FuncInfo{Key: key, Lit: lit, Body: lit.Body, Sig: sig, Pkg: pkg}
+					}
+					return true
+				})
 			}
 			// contracts
 			var lines []rawLine
